@@ -45,6 +45,7 @@ struct TableSpec {
 	bool no_type = false;                // omit the TYPE card
 	bool no_comments = false;            // omit the two COMMENT cards cfitsio writes
 	bool ext_reversed = false;           // extensions written in reverse order (they are found by EXTNAME)
+	int image_bitpix = 0;                // 0: as double_image says; 8 / 16 / 32: integer coefficient image (values rounded to that range), also accepted by the reader
 	bool double_image = false;           // coefficient image stored as BITPIX = -64 (outside the documented layout, accepted by the reader)
 
 	uint64_t ncoeffs() const { uint64_t n = 1; for (auto a : naxes) n *= a; return ndim ? n : 0; }
